@@ -261,7 +261,8 @@ def prop_C04(ctx, tier):
               'K1: the overflow test is `len > limit` where the new entry is already stored and `len >= limit` where it is not (placement computed by dominance). '
               'E1: with a limit the test lies on every storing path. P1/P2: per flavour x policy, under the overflow oracle, every path removes at most one store entry and removes '
               'it from store and queue together (orphan paths judged separately). P4: a store leaves the key in store and queue together. K2: the random victim is a position of the '
-              'queue it is removed from. P3: re-stored keys are de-duplicated in the queue. Not decided: the numeric bound over histories (induction on paper).', ASSUME_COMMON)
+              'queue it is removed from. P3: re-stored keys lose their old queue slot under every policy (structural and scenario form). E2: an own-key replacement precedes the overflow '
+              'test. P5: the key removed from the store is the key removed from the queue. P1 also: an overflow with a victim available removes one. Not decided: the numeric bound over histories (induction on paper).', ASSUME_COMMON)
     K.check_overflow_form(run, ctx)
     n, anchors = K.check_overflow_test_on_every_path(run, ctx)
     run.require('C04-E1', 'store entry points', len([a for a in anchors.values() if a]), 6)
@@ -289,7 +290,7 @@ def prop_C05(ctx, tier):
     run = Run('C05', tier,
               'K1: oversize test is NEW_SIZE > MAX_MEM and its true edge leaves no net entry and never enters the eviction loop. K2: the fit test is MEM_SUM <= MAX_MEM where the new entry is '
               'already stored, MEM_SUM+NEW_SIZE <= MAX_MEM where it is not; under the "fits" oracle nothing is evicted. K3: the sum ranges over all stored values. P1: every loop iteration '
-              'removes exactly one victim from store and queue, and an iteration that removed nothing leaves the loop. S1: estimator impls count capacity and recurse into every component. '
+              'removes exactly one victim (the same key) from store and queue, and an iteration that removed nothing leaves the loop. E2: an own-key replacement precedes the fit test. S1: estimator impls count capacity and recurse into every component. '
               'W1: max_memory selects the memory-aware store. Not decided: numeric totals.', ASSUME_COMMON)
     K.check_memory_forms(run, ctx)
     K.check_replacement_before_fit_test(run, ctx)
@@ -308,7 +309,7 @@ def prop_C01(ctx, tier):
     run = Run('C01', tier,
               'W1: in every fixture wrapper the lookup and every store use the same key value, a hit returns the looked-up payload, any other return is the body\'s result, which is also what '
               'is stored. P1: the three lookups search under the requested key and return a clone of that entry\'s value. P2: every non-oversize store path of the six store functions '
-              'inserts (key, value) - the store overwrites. W2: store statics are owned by the decorated function. Not decided: equality of values over histories.', ASSUME_COMMON)
+              'inserts (key, value), what is stored is an entry freshly built from the value parameter, and an oversize value still drops the superseded entry (P3) - the store overwrites. W2: store statics are owned by the decorated function. Not decided: equality of values over histories.', ASSUME_COMMON)
     n = W.check_wrapper_dataflow(run, ctx)
     run.require('C01-W1', 'fixture wrappers', n, 300)
     K.check_store_value_identity(run, ctx, 'C01-P2')
